@@ -642,9 +642,11 @@ class CompositeDataSource(DataSource):
         if not self.has_data_sources():
             raise AttributeError("CompositeDataSource has no data sources")
 
-        results = []
-        for ds in self.data_sources:
-            results.extend(ds.related_to(*args, **kwargs))
+        # A relationship and the objects it connects may be held by different
+        # data sources, so the lookup can't be delegated to each data source
+        # separately: find the relationships across all data sources, then
+        # look up the related objects across all data sources.
+        results = super(CompositeDataSource, self).related_to(*args, **kwargs)
 
         # remove exact duplicates (where duplicates are STIX 2.0
         # objects with the same 'id' and 'modified' values)
